@@ -1068,8 +1068,11 @@ func GenCommand(r *vfutil.Rand, eff Cfg) (string, [][]byte) {
 			return []byte("00" + strconv.Itoa(n))
 		case 6:
 			return []byte("-1")
+		case 8: // huge but still an int64: the key range computed from it must not overflow
+			return []byte(vfutil.Pick(r, []string{"9223372036854775807", "4611686018427387905", "4611686018427387904",
+				"9223372036854775806", "3074457345618258603", strconv.FormatUint(uint64(1)<<62+r.U64()%(uint64(1)<<61), 10)}))
 		case 7:
-			d := make([]byte, r.Range(2, 18)) // below 2^62: no int64 overflow in the code under test
+			d := make([]byte, r.Range(2, 18))
 			for i := range d {
 				d[i] = byte('0' + r.Intn(10))
 			}
@@ -1220,6 +1223,91 @@ func (e *Env) SlotSweep(cfgs []Cfg, step int) {
 		e.OpRanges(c, f)
 		for s := 0; s < 16384; s += step {
 			e.OpKey(c, f, KeyInSlot(nil, uint16(s), nil))
+		}
+	}
+}
+
+// ---------------------------------------------------------------- golden key positions
+
+type golden struct {
+	cmd  string
+	args []string
+	want []int
+}
+
+// Key positions of well-formed commands as the Redis command reference
+// documents them (trusted transcription, independent of the repo's tables).
+// An edited row of a multi-key command shows up here as a concrete input.
+var goldenCmds = []golden{
+	{"set", []string{"k", "v"}, []int{0}},
+	{"setex", []string{"k", "10", "v"}, []int{0}},
+	{"hset", []string{"k", "f", "v"}, []int{0}},
+	{"expire", []string{"k", "10"}, []int{0}},
+	{"restore", []string{"k", "0", "blob"}, []int{0}},
+	{"del", []string{"a", "b", "c"}, []int{0, 1, 2}},
+	{"unlink", []string{"a", "b"}, []int{0, 1}},
+	{"mset", []string{"a", "1", "b", "2", "c", "3"}, []int{0, 2, 4}},
+	{"msetnx", []string{"a", "1", "b", "2"}, []int{0, 2}},
+	{"rename", []string{"a", "b"}, []int{0, 1}},
+	{"renamenx", []string{"a", "b"}, []int{0, 1}},
+	{"copy", []string{"a", "b", "REPLACE"}, []int{0, 1}},
+	{"rpoplpush", []string{"a", "b"}, []int{0, 1}},
+	{"brpoplpush", []string{"a", "b", "0"}, []int{0, 1}},
+	{"lmove", []string{"a", "b", "LEFT", "RIGHT"}, []int{0, 1}},
+	{"blmove", []string{"a", "b", "LEFT", "RIGHT", "0"}, []int{0, 1}},
+	{"smove", []string{"a", "b", "m"}, []int{0, 1}},
+	{"sinterstore", []string{"d", "a", "b"}, []int{0, 1, 2}},
+	{"sunionstore", []string{"d", "a"}, []int{0, 1}},
+	{"sdiffstore", []string{"d", "a", "b"}, []int{0, 1, 2}},
+	{"pfmerge", []string{"d", "a", "b"}, []int{0, 1, 2}},
+	{"bitop", []string{"AND", "d", "a", "b"}, []int{1, 2, 3}},
+	{"brpop", []string{"a", "b", "0"}, []int{0, 1}},
+	{"blpop", []string{"a", "0"}, []int{0}},
+	{"bzpopmin", []string{"a", "b", "0"}, []int{0, 1}},
+	{"zrangestore", []string{"d", "s", "0", "-1"}, []int{0, 1}},
+	{"geosearchstore", []string{"d", "s", "FROMMEMBER", "m", "BYRADIUS", "1", "m"}, []int{0, 1}},
+	{"json.mset", []string{"a", "$", "1", "b", "$", "2"}, []int{0, 3}},
+	{"eval", []string{"return 1", "2", "a", "b", "x"}, []int{2, 3}},
+	{"evalsha", []string{"sha", "1", "a"}, []int{2}},
+	{"fcall", []string{"f", "2", "a", "b"}, []int{2, 3}},
+	{"zunionstore", []string{"d", "2", "a", "b", "WEIGHTS", "1", "2"}, []int{0, 2, 3}},
+	{"zinterstore", []string{"d", "1", "a"}, []int{0, 2}},
+	{"zdiffstore", []string{"d", "2", "a", "b"}, []int{0, 2, 3}},
+	{"lmpop", []string{"2", "a", "b", "LEFT"}, []int{1, 2}},
+	{"blmpop", []string{"0", "2", "a", "b", "LEFT"}, []int{2, 3}},
+	{"zmpop", []string{"1", "a", "MIN"}, []int{1}},
+	{"bzmpop", []string{"0", "1", "a", "MIN"}, []int{2}},
+	{"xgroup", []string{"CREATE", "s", "g", "$"}, []int{1}},
+	{"xreadgroup", []string{"GROUP", "g", "c", "COUNT", "1", "STREAMS", "a", "b", ">", ">"}, []int{6, 7}},
+	{"sort", []string{"k", "LIMIT", "0", "5", "STORE", "d"}, []int{0, 5}},
+	{"georadius", []string{"k", "0", "0", "1", "m", "STORE", "d"}, []int{0, 6}},
+	{"georadiusbymember", []string{"k", "m", "1", "km", "STOREDIST", "d"}, []int{0, 5}},
+}
+
+// RunGolden checks the table against the golden positions and ties the model
+// to the code on them (under a rule that rejects keys starting with "b").
+func (e *Env) RunGolden() {
+	c := Cfg{PB: []string{"b"}}
+	f := e.Make(c)
+	for _, g := range goldenCmds {
+		args := make([][]byte, len(g.args))
+		for i, a := range g.args {
+			args[i] = []byte(a)
+		}
+		for _, name := range []string{g.cmd, asciiUpper(g.cmd)} {
+			idx, ok, _ := safeKeyIndexes(name, args)
+			same := ok && len(idx) == len(g.want)
+			if same {
+				for i := range idx {
+					same = same && idx[i] == g.want[i]
+				}
+			}
+			e.S.Count("golden")
+			if !same {
+				e.violate("KeyPositions", fmt.Sprintf("CommandKeyIndexes(%q, %q) = %v (ok=%v), the command reference says %v", name, g.args, idx, ok, g.want),
+					e.replay(c, map[string]interface{}{"cmd": name, "args": ArgList(args), "got": fmt.Sprint(idx), "want": fmt.Sprint(g.want)}))
+			}
+			e.OpFck(c, f, name, args)
 		}
 	}
 }
